@@ -276,8 +276,8 @@ def run_case(case, st=None):
                 elif k == "query":
                     pr = dec(step[1])
                     rows = list(g.query("SELECT ?s ?o WHERE { ?s %s ?o }" % pr.n3()))
-                    got = sorted((lkey(r[0]), lkey(r[1])) for r in rows)
-                    want = sorted((kk[0], kk[2]) for kk in exp if kk[1] == lkey(pr))
+                    got = sorted(((lkey(r[0]), lkey(r[1])) for r in rows), key=str)
+                    want = sorted(((kk[0], kk[2]) for kk in exp if kk[1] == lkey(pr)), key=str)
                     st["mirror:query"] = st.get("mirror:query", 0) + 1
                     if got != want: return ("mirror:query", "%s: query() rows differ from the endpoint graph" % where)
                 if writes_seen: reads_after = True
